@@ -20,6 +20,13 @@ type Obligation struct {
 	Script string
 	PathID int
 	Goal   string
+	Trace  string
+	Fn     *ssa.Function  `json:"-"`
+	FC     *FuncContract  `json:"-"`
+	Clause *Clause        `json:"-"`
+	ReplayInputs map[string]string
+	ReplayTranscript string
+	ReplayConfirmed bool
 	// results
 	Status  string // unsat / sat / unknown / timeout
 	Solver  string
@@ -61,6 +68,7 @@ type Exec struct {
 	specDecls []string
 	specDepth int
 	fnKey     string
+	curClause *Clause
 	axiomTerms []string
 	axiomNames []string
 }
@@ -232,7 +240,9 @@ func (x *Exec) enterBlock(st *State, b, prev *ssa.BasicBlock, k Cont) {
 		return
 	}
 	fr := st.top()
+	st.trace = append(st.trace, fmt.Sprintf("%s:%d", fr.fn.Name(), b.Index))
 	if fr.depth == 0 {
+		st.curBlock = b
 		if ord, ok := x.loopHeads[b]; ok {
 			x.atLoopHead(st, b, prev, ord, k)
 			return
@@ -852,7 +862,19 @@ func pow2(k int) string {
 	return sb.String()
 }
 
+func ptrNonNil(p *Pointer) bool {
+	return !p.Nil && (p.Cell != nil || len(p.Path) > 0 || p.Idx != "")
+}
+
 func (x *Exec) valuesEqual(st *State, a, b *Value) string {
+	if a.K == KPtr && b.K == KPtr {
+		if a.P.Nil && b.P.Nil {
+			return "true"
+		}
+		if (a.P.Nil && ptrNonNil(b.P)) || (b.P.Nil && ptrNonNil(a.P)) {
+			return "false"
+		}
+	}
 	if a.K == KIface && b.K != KIface || b.K == KIface && a.K != KIface {
 		// comparing interface with concrete: not expected in SSA
 		return x.fresh(st, "cmp", "Bool")
@@ -967,6 +989,13 @@ func (x *Exec) binop(st *State, op token.Token, a, b *Value, rt types.Type) *Val
 		return x.arith(st, rt, fmt.Sprintf("(* %s %s)", A, B), "mul")
 	case token.QUO:
 		st.assume(fmt.Sprintf("(not (= %s 0))", B)) // division by zero panics
+		if _, isConst := constInt(B); !isConst {
+			// division by a symbolic divisor: state the defining property for the non-negative case
+			q := x.fresh(st, "quot", "Int")
+			st.assume(fmt.Sprintf("(= %s (tdiv %s %s))", q, A, B))
+			st.assume(fmt.Sprintf("(=> (and (> %s 0) (>= %s 0)) (and (<= (* %s %s) %s) (< %s (+ (* %s %s) %s)) (>= %s 0)))", B, A, B, q, A, A, B, q, B, q))
+			return x.arith(st, rt, q, "div")
+		}
 		return x.arith(st, rt, fmt.Sprintf("(tdiv %s %s)", A, B), "div")
 	case token.REM:
 		st.assume(fmt.Sprintf("(not (= %s 0))", B))
@@ -1022,6 +1051,11 @@ func (x *Exec) binop(st *State, op token.Token, a, b *Value, rt types.Type) *Val
 
 // arith wraps an integer arithmetic result: with "checks ovf" an obligation is emitted that it fits.
 func (x *Exec) arith(st *State, rt types.Type, term, what string) *Value {
+	if b, ok := rt.Underlying().(*types.Basic); ok && what != "div" {
+		if bits, signed := intBits(b); bits > 0 && !signed {
+			return leaf(rt, fmt.Sprintf("(mod %s %s)", term, pow2(bits)))
+		}
+	}
 	if x.fc != nil && x.fc.Checks["ovf"] && st.top().depth == 0 && x.discovery == 0 {
 		if b, ok := rt.Underlying().(*types.Basic); ok {
 			if lo, hi, ok := intRange(b); ok {
@@ -1052,7 +1086,7 @@ func (x *Exec) convert(st *State, v *Value, from, to types.Type) *Value {
 					}
 				}
 			}
-			return leaf(to, v.Term)
+			return leaf(to, wrapConv(v.Term, fb, tb))
 		}
 		if fb.Info()&types.IsInteger != 0 && tb.Info()&types.IsString != 0 {
 			return x.freshValue(st, to, "runestr")
@@ -1062,6 +1096,63 @@ func (x *Exec) convert(st *State, v *Value, from, to types.Type) *Value {
 		}
 	}
 	return retag(v, to)
+}
+
+func intBits(b *types.Basic) (bits int, signed bool) {
+	switch b.Kind() {
+	case types.Int, types.Int64:
+		return 64, true
+	case types.Int32:
+		return 32, true
+	case types.Int16:
+		return 16, true
+	case types.Int8:
+		return 8, true
+	case types.Uint, types.Uint64, types.Uintptr:
+		return 64, false
+	case types.Uint32:
+		return 32, false
+	case types.Uint16:
+		return 16, false
+	case types.Uint8:
+		return 8, false
+	}
+	return 0, false
+}
+
+// wrapConv gives Go's exact integer conversion semantics (two's complement truncation).
+func wrapConv(term string, from, to *types.Basic) string {
+	fb, fs := intBits(from)
+	tb, ts := intBits(to)
+	if fb == 0 || tb == 0 {
+		return term
+	}
+	// value range of source included in target: identity
+	if fs == ts && fb <= tb {
+		return term
+	}
+	if !fs && ts && fb < tb {
+		return term
+	}
+	if _, ok := constInt(term); ok && !strings.HasPrefix(term, "(") {
+		// small non-negative literal: fits every type when < 128
+		if n, _ := constInt(term); n >= 0 && n < 128 {
+			return term
+		}
+	}
+	m := pow2(tb)
+	if fb == tb && !fs && ts {
+		// unsigned -> signed of the same width: at most one wrap
+		return fmt.Sprintf("(ite (< %s %s) %s (- %s %s))", term, pow2(tb-1), term, term, m)
+	}
+	if fb == tb && fs && !ts {
+		return fmt.Sprintf("(ite (>= %s 0) %s (+ %s %s))", term, term, term, m)
+	}
+	if !ts {
+		return fmt.Sprintf("(mod %s %s)", term, m)
+	}
+	h := pow2(tb - 1)
+	return fmt.Sprintf("(- (mod (+ %s %s) %s) %s)", term, h, m, h)
 }
 
 func (x *Exec) tagOf(t types.Type) string {
